@@ -1,6 +1,7 @@
 """C01 — Strapdown integration converges to the true navigation solution.
 
-Tie: translator (_numba_integrate.integrate -> Gen/NumbaIntegrate.v step3d_*, mat_from_rotvec, nb_gravity);
+Tie: translator (_numba_integrate.integrate -> Gen/NumbaIntegrate.v step3d_*, mat_from_rotvec, nb_gravity;
+strapdown.compute_increments_from_imu -> Gen/C01Gen.v inc_rate_*, inc_incr_*, registry tools/reg/c01.py);
 theorems in Props/C01.v against the hand-written hub specification Spec/NavODE.v.
 
 Numerical support on the IMPLEMENTATION (also the falsifier):
@@ -309,12 +310,13 @@ def check(r):
     r.assumptions += [
         "PARTIAL: uniform stability constant L and local-error constant C of the concrete kernel are hypotheses of "
         "C01_strapdown_converges_partial, not proved; existence/smoothness of the exact flow not proved",
-        "increments_consistent is proved on the hand transcription h_rate_*/h_incr_* of compute_increments_from_imu "
-        "(Model/KernelHand.v); the per-row formulas themselves are tied to the code by C15",
+        "increments_consistent: one row of compute_increments_from_imu traced on a 2-sample DataFrame (Gen/C01Gen.v); "
+        "increment-type samples are modelled as W(dt)-W(0), W(0)-W(-dt) for an antiderivative W of the signal "
+        "(equal adjacent intervals); multi-row behaviour and unequal intervals are C15's subject",
         "step_consistent is stated for -90 < lat < 90 and alt >= -1000 km (cos lat > 0, radii > 0)",
         "convergence order / halving behaviour of the implementation is checked numerically only (support)",
     ]
-    r.generate(['Earth', 'NumbaIntegrate'])
+    r.generate(['Earth', 'NumbaIntegrate', 'C01Gen'])
     r.prove('Props/C01.v')
     if r.tier == 'quick':
         fails = numeric_support(r, 6, 40)
